@@ -73,6 +73,12 @@ type c09Cfg struct {
 	respEst        int
 }
 
+// String keeps pointers (the zone of a netip.Addr) out of the trace.
+func (c c09Cfg) String() string {
+	return fmt.Sprintf("{limit4:%d limit6:%d ivl4:%v ivl6:%v len4:%d len6:%d period:%v duration:%v backoffCount:%d refuseANY:%v allow:%v respEst:%d}",
+		c.limit4, c.limit6, c.ivl4, c.ivl6, c.len4, c.len6, c.period, c.duration, c.backoffCount, c.refuseANY, fmt.Sprint(c.allow), c.respEst)
+}
+
 type c09ProfSpec struct {
 	id      agd.ProfileID
 	dev     agd.DeviceID
@@ -234,7 +240,7 @@ func runC09(s *kernel.Sim, _ string) {
 		{id: "prof2", dev: "dev2", custom: true, rps: t.Range(1, 3, "rps2"), respEst: 100,
 			subnets: []netip.Prefix{netip.MustParsePrefix("192.0.2.0/24"), netip.MustParsePrefix("2001:db8::/64")}},
 	}
-	s.Logf("config %+v; prof1 rps=%d est=%d; prof2 rps=%d subnets=%v", c, profs[1].rps, profs[1].respEst, profs[2].rps, profs[2].subnets)
+	s.Logf("config %v; prof1 rps=%d est=%d; prof2 rps=%d subnets=%v", c, profs[1].rps, profs[1].respEst, profs[2].rps, profs[2].subnets)
 
 	bo := ratelimit.NewBackoff(&ratelimit.BackoffConfig{
 		Allowlist:            ratelimit.NewDynamicAllowlist(c.allow, nil),
@@ -413,7 +419,7 @@ func runC09(s *kernel.Sim, _ string) {
 				kind += " [profile with its own limit]"
 			}
 			s.Failf("C09/mw-decision", kind,
-				"event %d at t=%v client %s as %s plain=%v qtype %d: dropped=%v, reference says dropped=%v (%s); config %+v prof1{rps %d est %d} prof2{rps %d %v}",
+				"event %d at t=%v client %s as %s plain=%v qtype %d: dropped=%v, reference says dropped=%v (%s); config %v prof1{rps %d est %d} prof2{rps %d %v}",
 				i, now.Sub(epoch), ip, name, plain, qt, gotDrop, wantDrop, why, c, profs[1].rps, profs[1].respEst, profs[2].rps, profs[2].subnets)
 
 			return
